@@ -113,6 +113,9 @@ def run(repo, res, tier):
     n = sink_rule(repo, res, ty)
     from . import sk_bash
     sk_bash.quote_rule(repo, res, tier)
+    # `a literal is matched only by the identical word`: the prefix filter compares text as it is (no option that changes how `[[ ]]`
+    # compares is switched on and left on) -- shared with C01 / C12 / C17
+    sk_bash.matchfn_rule(repo, res, tier)
     res.floor("ENC", res.count("ENC"), 2)
     res.floor("SINK-holes", n, 150)
     res.floor("SK-QUOTE", res.count("SK-QUOTE"), 15)
